@@ -665,7 +665,7 @@ class AssertRange(Contract):
     def raises(self, c, x, lo, hi, err=None):
         xv, l, h = c.v(x), _ov(c, lo), _ov(c, hi)
         n = c.bitlength
-        return [(AssertionError, And(Not(ie(c)), Or(xv < l, xv >= h, xv - l >= (1 << n), h - xv >= (1 << n))))]
+        return [(AssertionError, And(Not(ie(c)), Or(xv < l, xv >= h, xv - l >= (1 << n), h - xv - 1 >= (1 << n))))]
 
     def post(self, c, r, x, lo, hi, err=None):
         xv, l, h = c.v(x), _ov(c, lo), _ov(c, hi)
@@ -1087,7 +1087,7 @@ class RShift(Contract):
 
     def configs(self, tier):
         n = 4
-        return [dict(mode=m, k=k, bits=n) for m in MODES for k in (0, 1, 3, 4, 6, -1)]
+        return [dict(mode=m, k=k, bits=n, **({"raises_only": True} if k < 0 else {})) for m in MODES for k in (0, 1, 3, 4, 6, -1)]
 
     def setup(self, c, cfg):
         apply_mode(c, cfg["mode"], bitlength=cfg["bits"])
